@@ -9,7 +9,8 @@ CHECKS=${@:-C06}
 WT=/tmp/wt_diagmut
 : > $OUT
 git -C /repo worktree prune
-SITES=$(cd /repo && grep -n "cfg_error(" src/confuse.c src/lexer.l | grep -v "DLLIMPORT void cfg_error\|should have called" | cut -d: -f1,2)
+# DIAG_SITES="file:line ..." restricts the run to those call sites
+SITES=${DIAG_SITES:-$(cd /repo && grep -n "cfg_error(" src/confuse.c src/lexer.l | grep -v "DLLIMPORT void cfg_error\|should have called" | cut -d: -f1,2)}
 for S in $SITES; do
   F=${S%%:*}; L=${S##*:}
   rm -rf $WT; git -C /repo worktree prune
